@@ -62,6 +62,10 @@ func (p *Parser) nextToken() error {
 
 	token, err := p.lexer.NextToken()
 	if err != nil {
+		// Drop the lookahead: keeping the stale token would hand the same
+		// token to the caller again and again (callers that ignore this error
+		// would never reach the end of input).
+		p.peekToken = nil
 		return err
 	}
 	p.peekToken = token
@@ -298,6 +302,9 @@ func (p *Parser) ParseIndirectObject() (*IndirectObject, error) {
 	}
 
 	// Parse object number
+	if p.currentToken == nil {
+		return nil, fmt.Errorf("unexpected end of input, expected object number")
+	}
 	if p.currentToken.Type != TokenInteger {
 		return nil, fmt.Errorf("expected object number, got %v", p.currentToken.Type)
 	}
@@ -309,6 +316,9 @@ func (p *Parser) ParseIndirectObject() (*IndirectObject, error) {
 	p.nextToken()
 
 	// Parse generation number
+	if p.currentToken == nil {
+		return nil, fmt.Errorf("unexpected end of input, expected generation number")
+	}
 	if p.currentToken.Type != TokenInteger {
 		return nil, fmt.Errorf("expected generation number, got %v", p.currentToken.Type)
 	}
@@ -320,6 +330,9 @@ func (p *Parser) ParseIndirectObject() (*IndirectObject, error) {
 	p.nextToken()
 
 	// Parse 'obj' keyword
+	if p.currentToken == nil {
+		return nil, fmt.Errorf("unexpected end of input, expected 'obj' keyword")
+	}
 	if p.currentToken.Type != TokenKeyword || string(p.currentToken.Value) != "obj" {
 		return nil, fmt.Errorf("expected 'obj' keyword, got %v", p.currentToken)
 	}
@@ -329,6 +342,10 @@ func (p *Parser) ParseIndirectObject() (*IndirectObject, error) {
 	obj, err := p.ParseObject()
 	if err != nil {
 		return nil, fmt.Errorf("error parsing indirect object value: %w", err)
+	}
+
+	if p.currentToken == nil {
+		return nil, fmt.Errorf("unexpected end of input, expected 'endobj' keyword")
 	}
 
 	// Check for stream
@@ -346,6 +363,9 @@ func (p *Parser) ParseIndirectObject() (*IndirectObject, error) {
 	}
 
 	// Parse 'endobj' keyword
+	if p.currentToken == nil {
+		return nil, fmt.Errorf("unexpected end of input, expected 'endobj' keyword")
+	}
 	if p.currentToken.Type != TokenKeyword || string(p.currentToken.Value) != "endobj" {
 		return nil, fmt.Errorf("expected 'endobj' keyword, got %v", p.currentToken)
 	}
